@@ -94,6 +94,8 @@ func h14Make(variant, fv int) *h14Setup {
 		col = "a"
 	case 3:
 		ignore = "b"
+	case 4:
+		row = ".name,/s" // a row key whose trailing field is missing for names without the sub-name
 	}
 	filter, err := benchproc.NewFilter(h14Filters[fv])
 	if err != nil {
